@@ -1114,9 +1114,12 @@ def run_unit(root, unit, contracts, seed=0, perturb=None):
             continue
         a, b = out1[k], out2[k]
         ok, detail, cex = compare(a, b, seed)
-        obs.append({"id": oid, "unit": unit.name, "kind": "ring",
-                    "text": f"{unit.fn}: {k} == {show(b)[:240] if not isinstance(b, list) else '[%d items]' % len(b)}",
-                    "status": "discharged" if ok else "failed", "detail": detail, "cex": cex, "backend": "ringcheck"})
+        ob = {"id": oid, "unit": unit.name, "kind": "ring",
+              "text": f"{unit.fn}: {k} == {show(b)[:240] if not isinstance(b, list) else '[%d items]' % len(b)}",
+              "status": "discharged" if ok else "failed", "detail": detail, "cex": cex, "backend": "ringcheck"}
+        if not ok and cex and unit.replay and k in ("result", "msm"):
+            ob["recipe"] = unit.replay
+        obs.append(ob)
     return obs, it1.calls
 
 
